@@ -31,7 +31,8 @@ func verifC19_write() {
 		websocket.VerifReach("C19.write.unencodable")
 		websocket.VerifAssert(err != nil, "C19.write.unencodable-is-error")
 		_, payloads, ok := websocket.VerifDataMessages(out())
-		websocket.VerifAssert(ok && len(payloads) == 0 && len(out()) == 0, "C19.write.failed-write-sends-nothing")
+		// (no data message: whether the library also gives up the connection on such a failure is its own choice)
+		websocket.VerifAssert(ok && len(payloads) == 0, "C19.write.failed-write-sends-no-message")
 	}
 	doc := vDocs[websocket.VerifChoose("doc", len(vDocs))]
 	v := json.RawMessage(doc)
